@@ -104,10 +104,13 @@ type Plan struct {
 	Steps    []StepFault  `json:"steps,omitempty"`
 	Readers  []ReaderPlan `json:"readers,omitempty"`
 	Writers  []WriterPlan `json:"writers,omitempty"`
+	// runtime failure (panic) at the PanicAt-th yield point of site PanicSite; deferred functions run
+	PanicAt   int64  `json:"panic_at,omitempty"`
+	PanicSite string `json:"panic_site,omitempty"`
 }
 
 func (p *Plan) HasFault() bool {
-	if len(p.Steps) > 0 || len(p.Writers) > 0 {
+	if len(p.Steps) > 0 || len(p.Writers) > 0 || p.PanicAt > 0 {
 		return true
 	}
 	for _, r := range p.Readers {
